@@ -25,7 +25,7 @@ func init() {
 			"inside a macro the includer's variables are the macro's parameters",
 			"error texts are not compared, only error-vs-output",
 		},
-		quick: 1728 + 60 + 72 + 16000, thorough: 1728 + 60 + 72 + 60000, minQuick: 2500, minThorough: 15000,
+		quick: 1728 + 60 + 72 + 16000, thorough: 1728 + 60 + 72 + 400000, minQuick: 2500, minThorough: 15000,
 	}})
 }
 
